@@ -98,8 +98,8 @@ impl Check for C15 {
     }
     fn default_runs(&self, tier: Tier) -> u64 {
         match tier {
-            Tier::Quick => 1500,
-            Tier::Thorough => 60000,
+            Tier::Quick => 12000,
+            Tier::Thorough => 600000,
         }
     }
     fn gen(&self, seed: u64, family: &str, tier: Tier) -> Case {
